@@ -38,7 +38,7 @@ structure Fr (cid : Nat) (w w' : World) : Prop where
   sr : spawnRefs (.cmd cid) w' = spawnRefs (.cmd cid) w
   len : w'.leaves.length = w.leaves.length
 
-theorem Fr.refl (cid : Nat) (w : World) : Fr cid w w := ⟨TK.refl w, rfl, rfl⟩
+theorem Fr.refl (cid : Nat) (w : World) : Fr cid w w := ⟨TKp.refl w, rfl, rfl⟩
 theorem Fr.trans {cid : Nat} {w1 w2 w3 : World} (h12 : Fr cid w1 w2) (h23 : Fr cid w2 w3) : Fr cid w1 w3 :=
   ⟨h12.tk.trans h23.tk, h23.sr.trans h12.sr, h23.len.trans h12.len⟩
 
